@@ -16,11 +16,20 @@
 (* N addresses; FailAt = the address whose bind fails (0 = none);          *)
 (* CleanupOnFailedStart = FALSE is the code as it is, TRUE a Start that    *)
 (* closes what it has opened before returning the error.                   *)
+(*                                                                         *)
+(* Accept / ReadFrom may also FAIL while the socket stays open             *)
+(* (Server.serve / servePacket): a timeout is logged and the loop goes on; *)
+(* every other error - the socket was closed, but also a transient one     *)
+(* such as EMFILE or ECONNABORTED - ends the loop, and App.Start discards   *)
+(* the loop's return value (`_ = s.serve(ln)`).  MaxErrs bounds the number *)
+(* of such failures; RetryTransient = FALSE is the code as it is, TRUE a   *)
+(* loop that goes on after a transient error the way net/http's does.      *)
 (***************************************************************************)
 EXTENDS Integers, FiniteSets, TLC
 
-CONSTANTS N, FailAt, MaxConns, CleanupOnFailedStart
+CONSTANTS N, FailAt, MaxConns, CleanupOnFailedStart, MaxErrs, RetryTransient
 ASSUME N \in Nat /\ FailAt \in 0..N /\ MaxConns \in Nat /\ CleanupOnFailedStart \in BOOLEAN
+       /\ MaxErrs \in Nat /\ RetryTransient \in BOOLEAN
 
 VARIABLES phase,     \* "new" | "starting" | "running" | "startfailed" | "stopping" | "stopped"
           i,         \* next address Start will bind
@@ -28,13 +37,14 @@ VARIABLES phase,     \* "new" | "starting" | "running" | "startfailed" | "stoppi
           tracked,   \* sockets remembered by the app (what Stop will close)
           loops,     \* serve / servePacket goroutines running
           handlers,  \* connections whose handler goroutine is running: [id |-> listener]
-          nconn      \* connections accepted so far
-vars == <<phase, i, bound, tracked, loops, handlers, nconn>>
+          nconn,     \* connections accepted so far
+          nerr       \* failed Accept / ReadFrom calls on open sockets so far
+vars == <<phase, i, bound, tracked, loops, handlers, nconn, nerr>>
 
-Init == /\ phase = "new" /\ i = 1 /\ bound = {} /\ tracked = {} /\ loops = {} /\ handlers = {} /\ nconn = 0
+Init == /\ phase = "new" /\ i = 1 /\ bound = {} /\ tracked = {} /\ loops = {} /\ handlers = {} /\ nconn = 0 /\ nerr = 0
 
 CaddyStart == /\ phase = "new" /\ phase' = "starting"
-              /\ UNCHANGED <<i, bound, tracked, loops, handlers, nconn>>
+              /\ UNCHANGED <<i, bound, tracked, loops, handlers, nconn, nerr>>
 
 \* one iteration of the loops in Start
 StartStep ==
@@ -47,29 +57,35 @@ StartStep ==
           /\ UNCHANGED <<i, loops>>
      ELSE /\ bound' = bound \cup {i} /\ tracked' = tracked \cup {i} /\ loops' = loops \cup {i}
           /\ i' = i + 1 /\ UNCHANGED phase
-  /\ UNCHANGED <<handlers, nconn>>
+  /\ UNCHANGED <<handlers, nconn, nerr>>
 StartDone == /\ phase = "starting" /\ i > N /\ phase' = "running"
-             /\ UNCHANGED <<i, bound, tracked, loops, handlers, nconn>>
+             /\ UNCHANGED <<i, bound, tracked, loops, handlers, nconn, nerr>>
 
 \* a serve loop accepts a connection (or receives a first datagram) and starts its handler goroutine;
 \* this can happen as soon as the loop runs - also while Start is still binding later addresses
 Accept(l) == /\ l \in loops /\ l \in bound /\ nconn < MaxConns
              /\ nconn' = nconn + 1
              /\ handlers' = handlers \cup {<<nconn + 1, l>>}
-             /\ UNCHANGED <<phase, i, bound, tracked, loops>>
+             /\ UNCHANGED <<phase, i, bound, tracked, loops, nerr>>
 HandlerDone(h) == /\ h \in handlers /\ handlers' = handlers \ {h}
-                  /\ UNCHANGED <<phase, i, bound, tracked, loops, nconn>>
+                  /\ UNCHANGED <<phase, i, bound, tracked, loops, nconn, nerr>>
 \* Accept / ReadFrom on a closed socket returns an error: the loop goroutine ends
 LoopExit(l) == /\ l \in loops /\ l \notin bound /\ loops' = loops \ {l}
-               /\ UNCHANGED <<phase, i, bound, tracked, handlers, nconn>>
+               /\ UNCHANGED <<phase, i, bound, tracked, handlers, nconn, nerr>>
+\* Accept / ReadFrom fails although the socket is open
+AcceptFails(l, kind) ==
+  /\ l \in loops /\ l \in bound /\ nerr < MaxErrs
+  /\ nerr' = nerr + 1
+  /\ loops' = IF kind = "timeout" \/ RetryTransient THEN loops ELSE loops \ {l}
+  /\ UNCHANGED <<phase, i, bound, tracked, handlers, nconn>>
 
 \* Caddy stops a running app (config reload or exit): every remembered socket is closed
 CaddyStop == /\ phase = "running" /\ phase' = "stopped"
              /\ bound' = bound \ tracked
-             /\ UNCHANGED <<i, tracked, loops, handlers, nconn>>
+             /\ UNCHANGED <<i, tracked, loops, handlers, nconn, nerr>>
 
 Next == \/ CaddyStart \/ StartStep \/ StartDone \/ CaddyStop
-        \/ \E l \in 1..N : Accept(l) \/ LoopExit(l)
+        \/ \E l \in 1..N : Accept(l) \/ LoopExit(l) \/ \E kind \in {"timeout", "transient"} : AcceptFails(l, kind)
         \/ \E h \in handlers : HandlerDone(h)
 Spec == Init /\ [][Next]_vars /\ WF_vars(StartStep) /\ WF_vars(StartDone)
         /\ \A l \in 1..N : WF_vars(LoopExit(l))
@@ -79,6 +95,9 @@ TypeOK == /\ phase \in {"new", "starting", "running", "startfailed", "stopping",
 
 \* what Stop forgets nothing of: every open socket is remembered
 AllTracked == bound \subseteq tracked
+\* an open socket the app remembers is being served (violated by the code as it is once MaxErrs > 0:
+\* a transient accept error ends the loop while the socket stays bound - clients connect and hang)
+ServedWhileBound == phase = "running" => \A l \in bound \cap tracked : l \in loops
 \* after Stop nothing stays bound
 StopClosesAll == phase = "stopped" => bound = {}
 \* a failed Start leaves no socket bound (this is the clause the code as it is does NOT satisfy)
